@@ -13,6 +13,8 @@
 #       ring of REAL devices, links played by the harness; forwards counted by a watchdog
 #   busrefl peers=<n> wire=<hex>
 #       one raw BUS socket as a reflector device
+#   teardown fam=<..> mode=<blocked|idle|forwarded>
+#       a device is cancelled while it holds a message / idle / after a forward: result, sockets closed, no leak
 # The oracle is the property's wording evaluated on the implementation's own observations; the model
 # is compared separately (a difference without an oracle failure is reported `no-failing-input-found`).
 import os, random, re, select, subprocess, tempfile, time
@@ -599,8 +601,41 @@ class Runner:
             raise Failure("model", "model bus device: %s" % a)
         self.bump("busrefl")
 
+    def run_teardown(self, c):
+        """stop a device while its path holds a message (send blocked: the far socket has no pipe), while it is
+        idle, and after a forward; the device must finish with the cancel's code, close its sockets and
+        leak nothing (LeakSanitizer at process exit) -- the observable part of RouteModel.device_cb's error path"""
+        fam, mode = c["fam"], c["mode"]
+        self.fresh()
+        self.do("open s0 %s" % FRONT[fam])
+        self.do("open s1 %s" % BACK[fam])
+        o = self.do("conn s0 %d" % PEER_OF[FRONT[fam]])
+        q = o["pipe"]
+        b = None
+        if mode != "blocked":
+            b = self.do("conn s1 %d" % PEER_OF[BACK[fam]])["pipe"]
+        o = self.do("device d0 s0 s1")
+        if o["rv"] != 0:
+            raise Failure("spec", "device refused rv=%d" % o["rv"])
+        if mode != "idle":
+            wire = (w32(1) if fam == "pair1" else w32(0x80000005)) + "d0d1"
+            o = self.do("inject p%d %s" % (q, wire))
+            if mode == "forwarded" and o["pipes"][b]["tx"] is None:
+                raise Failure("spec", "device did not forward %s" % wire)
+        o = self.do("devstop d0")
+        if o["rv"] != 20:
+            raise Failure("spec", "a cancelled device must finish with NNG_ECANCELED (20), got %d" % o["rv"])
+        if any(p["st"] == "o" for p in o["pipes"].values()):
+            raise Failure("spec", "a stopped device must close its sockets: %s" % o["pipes"])
+        r = self.do("setopt s0 ttl-max int 3")
+        if r["rv"] == 0:
+            raise Failure("spec", "the device's socket is still usable after the device stopped")
+        self.bump("teardown_" + mode)
+
     def run_case(self, c, rng):
         t = c["type"]
+        if t == "teardown":
+            return self.run_teardown(c)
         if t == "ichain":
             return self.run_ichain(c)
         if t == "tap":
@@ -745,6 +780,9 @@ def gen_loops(rng, tier):
     cases.append({"type": "loop", "kind": "bus", "ttls": "1,1,1", "wire": "aabbcd", "max": "60"})
     for peers in (2, 3, 5):
         cases.append({"type": "busrefl", "peers": str(peers), "wire": "b0%02x" % peers})
+    for fam in ("reqrep", "survey", "pair1", "bus"):
+        for mode in ("blocked", "idle", "forwarded"):
+            cases.append({"type": "teardown", "fam": fam, "mode": mode})
     return cases
 
 
@@ -771,7 +809,7 @@ def run(tier, seed, replay=None):
     if replay:
         cases = [parse_case(l.strip()) for l in open(replay) if l.strip() and not l.startswith("#")]
     else:
-        cases = [parse_case(" ".join(c)) for c in load_corpus("C13")]
+        cases = [parse_case(l) for c in load_corpus("C13") for l in c]
         cases += gen_ichain(rng, tier) + gen_tap(rng, 300 if tier == "quick" else 25000) + gen_inj(rng, tier) + gen_loops(rng, tier)
     R = Runner(impl, model_bin("modeld_c13"))
     model_fail, bus_alive = [], 0
